@@ -340,7 +340,10 @@ MAIN_TEMPLATE = """// generated by lib/kanirun.py — replays one harness with r
 fn main() {
     let vals: Vec<Vec<u8>> = vec![%s];
     kani::load(vals);
-    fmlverif::%s();
+    let r = std::panic::catch_unwind(|| fmlverif::%s());
+    if let Err(e) = r {
+        if !kani::assumption_broken() { std::panic::resume_unwind(e); }
+    }
     if kani::assumption_broken() {
         eprintln!("REPLAY: an assumption of the harness does not hold for the recorded values");
         std::process::exit(3);
